@@ -1405,14 +1405,17 @@ class Store:
         Variables that new processes declare outside the new subtree
         (ports wired with '..') exist after :py:meth:`generate`, but
         without a value: apply the defaults of the stores the processes
-        at the given absolute paths are wired to.
+        at the given absolute paths are wired to. What their glob ports
+        declare there is applied to the children that exist already.
         '''
         top = self.top()
         for process_path, _ in process_paths:
             node = top.get_path(process_path)
             for wired in wired_paths(node.topology or {}):
                 try:
-                    node.outer.get_path(wired).apply_defaults()
+                    store = node.outer.get_path(wired)
+                    store._apply_subschemas()
+                    store.apply_defaults()
                 except Exception:  # pylint: disable=broad-except
                     # not a store (e.g. wired into another process)
                     continue
